@@ -21,12 +21,14 @@ Verdict(e) ==
   ELSE IF e.eval_exc # "" THEN "FAIL:text_does_not_evaluate:" \o Sig(e)
   ELSE IF ~e.eq THEN "FAIL:rebuilt_schema_not_equal:" \o Sig(e)
   ELSE IF ~e.same_repr THEN "FAIL:rebuilt_schema_prints_differently:" \o Sig(e)
-  ELSE IF e.parsed /\ EvalExpr(e.expr) # DOk(e.s) THEN "FAIL:text_denotes_another_schema_under_the_spec:" \o Sig(e)
   ELSE "OK"
 
 \* the model of the printer predicts the calls the text makes
-Drift(e) == e.parsed /\ ~(e.expr.t = e.s.t /\ Len(e.expr.calls) = Len(ReprCalls(e.s))
-                          /\ \A j \in DOMAIN e.expr.calls : e.expr.calls[j].m = ReprCalls(e.s)[j].m)
+Drift(e) ==
+  /\ e.parsed
+  /\ \/ EvalExpr(e.expr) # DOk(e.s)          \* the text evaluated under the spec's DSL is another schema
+     \/ ~(e.expr.t = e.s.t /\ Len(e.expr.calls) = Len(ReprCalls(e.s))
+          /\ \A j \in DOMAIN e.expr.calls : e.expr.calls[j].m = ReprCalls(e.s)[j].m)
 
 TraceNext == TraceStep(Verdict, Drift)
 
